@@ -194,3 +194,21 @@ fn footer_truncated_input_boundaries() {
     assert!(matches!(MDBShardFileFooter::deserialize(&mut &b[..199]), Err(MDBShardError::IOError(_))), "199 bytes ==> IOError");
     kani::cover!(b[198] == 0xEE, "reached with arbitrary content");
 }
+
+/// is_bookend (cas_structs.rs / file_structs.rs): the section end marker is recognised exactly for the all-ones hash.
+/// This is the fact the Verus preludes assume about `is_bookend` (`r == (hash == bookend_hash())`, shscan_io.rs, setopstream_io.rs).
+#[kani::proof]
+fn bookend_iff_all_ones() {
+    use mdb_shard::cas_structs::CASChunkSequenceHeader;
+    use mdb_shard::file_structs::FileDataSequenceHeader;
+    let w: [u64; 4] = kani::any();
+    let all_ones = w[0] == !0u64 && w[1] == !0u64 && w[2] == !0u64 && w[3] == !0u64;
+    let c = CASChunkSequenceHeader { cas_hash: MerkleHash::from(w), cas_flags: kani::any(), num_entries: kani::any(), num_bytes_in_cas: kani::any(), num_bytes_on_disk: kani::any() };
+    assert!(c.is_bookend() == all_ones, "CASChunkSequenceHeader::is_bookend <=> all four hash words are all-ones");
+    let f = FileDataSequenceHeader { file_hash: MerkleHash::from(w), file_flags: kani::any(), num_entries: kani::any(), _unused: kani::any() };
+    assert!(f.is_bookend() == all_ones, "FileDataSequenceHeader::is_bookend <=> all four hash words are all-ones");
+    assert!(CASChunkSequenceHeader::bookend().is_bookend(), "CAS bookend() is a bookend");
+    assert!(FileDataSequenceHeader::bookend().is_bookend(), "file bookend() is a bookend");
+    kani::cover!(all_ones, "the all-ones hash is reachable");
+    kani::cover!(!all_ones && w[2] == !0u64, "a hash with one all-ones word is reachable");
+}
